@@ -1,0 +1,33 @@
+//! Verification hooks (only compiled with the `verif-hooks` feature).
+//!
+//! A thread-local override for the wall clock: every place in the crate that
+//! reads `chrono::Local::now()` passes the value it read through [`apply`],
+//! which returns the injected clock if one is set and the real one otherwise.
+
+use std::cell::Cell;
+
+thread_local! {
+    static NOW: Cell<Option<chrono::NaiveDateTime>> = Cell::new(None);
+    static READS: Cell<u64> = Cell::new(0);
+}
+
+/// Injects (or with `None` removes) the clock seen by this thread.
+pub fn set_now(now: Option<chrono::NaiveDateTime>) {
+    NOW.with(|c| c.set(now));
+}
+
+/// Number of clock reads made by this thread since the last `reset_reads`.
+pub fn reads() -> u64 {
+    READS.with(|c| c.get())
+}
+
+/// Resets the clock read counter of this thread.
+pub fn reset_reads() {
+    READS.with(|c| c.set(0));
+}
+
+#[inline]
+pub(crate) fn apply(real: chrono::NaiveDateTime) -> chrono::NaiveDateTime {
+    READS.with(|c| c.set(c.get() + 1));
+    NOW.with(|c| c.get()).unwrap_or(real)
+}
